@@ -1,6 +1,67 @@
-(* Corr/SmtextCorr.v — correspondence entry points. *)
+(* Corr/SmtextCorr.v — correspondence entry points for formats/smtext and the
+   SubstitutionMatrix methods; mirrors harness/smtext.go.
+   An entry is [i<k0> i<k1> x<canonical score text>]; matrices are shown as
+   their entries sorted by key. *)
 From Coq Require Import String.
 From Bio Require Import Base.
 From Bio.Model Require Import Smtext.
 
-Definition corr_smtext : list (string * (val -> val)) := [].
+Definition v_entry (e : key * F) : val :=
+  VL [VI (Z.of_N (fst (fst e))); VI (Z.of_N (snd (fst e))); VB (snd e)].
+Definition v_entries (m : smatrix) : val := VL (map v_entry m).
+Definition v_matrix (m : smatrix) : val := v_entries (go_string_entries m).
+
+Definition as_entry (v : val) : option (key * F) :=
+  match v with
+  | VL [VI a; VI b; VB x] => Some ((Z.to_N a, Z.to_N b), x)
+  | _ => None
+  end.
+Definition as_entries (v : val) : option (list (key * F)) :=
+  match v with VL l => all_some (map as_entry l) | _ => None end.
+
+(* [bytes term foracle truth]: the fourth field is the generator's ground
+   truth for the direct oracle; the model does not look at it. *)
+Definition c_ncbi_read (v : val) : val :=
+  match v with
+  | VL [VB s; t; fo; _] =>
+    match as_term t, as_foracle fo with
+    | Some t', Some o => v_outcome v_matrix (read_ncbi o s t')
+    | _, _ => v_bad
+    end
+  | _ => v_bad
+  end.
+
+(* Symmetrical: when a pair and its mirror are both present with == scores the
+   surviving one depends on Go's map iteration order; the two can differ only
+   as 0 / -0, so the observable shows -0 as 0 (both sides). *)
+Definition canon_zero (x : F) : F := if beqb x [45; 48] then [48] else x.
+Definition v_matrix_z (m : smatrix) : val :=
+  v_entries (map (fun e => (fst e, canon_zero (snd e))) (go_string_entries m)).
+
+Definition c_matrix_symmetrical (v : val) : val :=
+  match v with
+  | VL [es] =>
+    match as_entries es with
+    | Some l => v_outcome v_matrix_z (symmetrical (matrix_of_entries l))
+    | None => v_bad
+    end
+  | _ => v_bad
+  end.
+
+(* GoString: the (k0, k1, printed score) triples in output order *)
+Definition c_matrix_gostring (v : val) : val :=
+  match v with
+  | VL [es; fo] =>
+    match as_entries es, as_foracle fo with
+    | Some l, Some o =>
+      v_ok (v_entries (map (fun e => (fst e, fmtF o (snd e)))
+                           (go_string_entries (matrix_of_entries l))))
+    | _, _ => v_bad
+    end
+  | _ => v_bad
+  end.
+
+Definition corr_smtext : list (string * (val -> val)) :=
+  [ ("ncbi_read"%string, c_ncbi_read);
+    ("matrix_symmetrical"%string, c_matrix_symmetrical);
+    ("matrix_gostring"%string, c_matrix_gostring) ].
